@@ -40,7 +40,7 @@ pub struct Collected {
     pub digests: BTreeMap<u64, u64>,
     /// (run index or case id, description)
     pub aborts: Vec<(u64, String)>,
-    pub hangs: Vec<(u64, Value)>,
+    pub hangs: Vec<(u64, Value, String)>,
     pub harness_errors: Vec<String>,
     pub chroot_ok: bool,
     pub chroot_seen: bool,
@@ -235,7 +235,8 @@ impl Pool {
                                     "T " => {
                                         if let Ok(v) = serde_json::from_str::<Value>(rest) {
                                             let i = v["i"].as_u64().unwrap_or(0);
-                                            c.hangs.push((i, v["case"].clone()));
+                                            let note = format!("in flight: {}; {} s of wall-clock, {} s of CPU in this run", v["in_flight"].as_str().unwrap_or("?"), v["wall_s"].as_u64().unwrap_or(0), v["cpu_s"].as_u64().unwrap_or(0));
+                                            c.hangs.push((i, v["case"].clone(), note));
                                             c.fail_count += 1;
                                         }
                                     }
@@ -328,10 +329,10 @@ impl Pool {
                 out[k] = abort_result(k as u64, &cases[k], &desc);
             }
         }
-        for (k, _) in col.hangs {
+        for (k, _, note) in col.hangs {
             let k = k as usize;
             if k < out.len() {
-                out[k] = hang_result(k as u64, &cases[k]);
+                out[k] = hang_result(k as u64, &cases[k], &note);
             }
         }
         Ok(out)
@@ -343,8 +344,8 @@ pub fn abort_result(i: u64, case: &Value, desc: &str) -> Value {
            "h": 0, "nt": true, "steps": 0, "digest": 0, "case": case, "log": []})
 }
 
-pub fn hang_result(i: u64, case: &Value) -> Value {
-    json!({"i": i, "verdict": {"v": "fail", "class": "hang:native", "detail": format!("no answer within {} s of wall-clock ({} s when the process was not computing)", crate::worker::RUN_TIMEOUT_S, crate::worker::RUN_BLOCKED_S)},
+pub fn hang_result(i: u64, case: &Value, note: &str) -> Value {
+    json!({"i": i, "verdict": {"v": "fail", "class": "hang:native", "detail": format!("no answer within {} s of wall-clock ({} s when the process was not computing); {}", crate::worker::RUN_TIMEOUT_S, crate::worker::RUN_BLOCKED_S, note)},
            "h": 0, "nt": true, "steps": 0, "digest": 0, "case": case, "log": []})
 }
 
@@ -581,8 +582,8 @@ pub fn check(prop: &'static dyn Prop, opts: CheckOpts) -> i32 {
     for (i, desc) in &col.aborts {
         failures.push(abort_result(*i, &regenerate_case(prop, opts.seed, *i, &avoid), desc));
     }
-    for (i, case) in &col.hangs {
-        failures.push(hang_result(*i, case));
+    for (i, case, note) in &col.hangs {
+        failures.push(hang_result(*i, case, note));
     }
     failures.sort_by_key(|r| r["i"].as_u64().unwrap_or(0));
     let mut samples: Vec<Value> = col
